@@ -26,7 +26,7 @@ ASSUMPTIONS = [
 ]
 RULE = RULE + ' ' + 'Also: fill ratios down to 1e-17, bracketed formulas ((), [], {} with counts, nested), the pressure grid as whole-number pascals in an integer array.'
 REQUIRED = {'single-fill-with-ratio': 0.05, 'exact-unity': 0.2, 'deactivated-molecule': 0.1, 'class:valid': 0.3, 'class:invalid': 0.1, 'class:boundary': 0.03, 'type:twolayer': 0.1,
-            'type:power': 0.1, 'mode:ktables': 0.07, 'fill>=3': 0.1, 'tiny-fill-ratio': 0.05, 'pressure-grid:integer-array': 0.05}
+            'type:power': 0.1, 'mode:ktables': 0.07, 'fill>=3': 0.1, 'tiny-fill-ratio': 0.05, 'pressure-grid:integer-array': 0.05, 'rejected-point-first': 0.08}
 # coverage-guided extra (thorough tier): pure-Python taurex modules on this property's path, instrumented by atheris
 FUZZ = {'include': ['taurex.data.profiles.chemistry', 'taurex.util.util'], 'runs': 20000, 'workers': 4}
 
@@ -78,6 +78,7 @@ def _case(draw):
             'target': draw(st.floats(0.0, 1.0)), 'ktables': ktab, 'have': have,
             'lpmax': draw(st.floats(3.0, 8.0)), 'decades': draw(st.floats(1.0, 12.0)),
             'P_form': draw(st.sampled_from(['float', 'int', 'float', 'int'])),
+            'rejected_first': draw(S.pick([True, False, True])),
             'T': draw(st.lists(st.floats(100.0, 3000.0), min_size=2, max_size=4)),
             'exact_unity': draw(st.sampled_from([0, 1, 0, 2, 3, 0, 4])),
             'single_ratio': draw(st.sampled_from(['default', None, 0.4, 'default'])),
@@ -274,6 +275,20 @@ def check(case):
         for g in case['traces']:
             obj, ctrl = make_gas(g, f, P)
             cut(out, 'addGas', chem.addGas, obj)
+        # a rejected point before the judged one, on the same object (a sampler trying an abundance above one: the caller
+        # catches the invalid-model error and moves on): the next point is judged on its own merits
+        consts = [g['mol'] for g in case['traces'] if g['type'] == 'constant']
+        if case.get('rejected_first') and consts:
+            fpar = chem.fitting_parameters()
+            if consts[0] in fpar:
+                keep = fpar[consts[0]][2]()
+                fpar[consts[0]][3](1.5)
+                try:
+                    with np.errstate(all='ignore'):
+                        chem.initialize_chemistry(nl, T, P, None)
+                except InvalidModelException:
+                    out.cls('rejected-point-first')
+                fpar[consts[0]][3](keep)
         try:
             with np.errstate(all='ignore'):
                 cut(out, 'initialize_chemistry', chem.initialize_chemistry, nl, T, P, None, expect=(InvalidModelException,))
